@@ -91,6 +91,8 @@ class PathState:
                 return e[3][int(name)]
         if e[0] == 'variant' and e[1][0] == 'agg':
             return self.project(e[1], name)
+        if e[0] == 'closure' and name.isdigit() and int(name) < len(e[2]):
+            return e[2][int(name)]          # captured variable of a closure built on this path (desugared combinators)
         return ('field', e, name)
 
     def operand(self, op):
